@@ -1505,6 +1505,21 @@ func convertible(v reflect.Value, t reflect.Type) bool {
 	return true
 }
 
+// fieldByIndex is reflect.Value.FieldByIndex, except that a nil embedded pointer on the way to a
+// promoted field is an error instead of a panic
+func fieldByIndex(v reflect.Value, index []int) (reflect.Value, error) {
+	for i, x := range index {
+		if i > 0 && v.Kind() == reflect.Ptr && v.Type().Elem().Kind() == reflect.Struct {
+			if v.IsNil() {
+				return reflect.Value{}, fmt.Errorf("nil pointer to embedded struct %s", v.Type().Elem())
+			}
+			v = v.Elem()
+		}
+		v = v.Field(x)
+	}
+	return v, nil
+}
+
 func isUint(kind reflect.Kind) bool {
 	return kind >= reflect.Uint && kind <= reflect.Uint64
 }
@@ -1790,16 +1805,22 @@ func resolveIndex(v, index reflect.Value, indexAsStr string) (reflect.Value, err
 		}
 
 		if id, ok := cache[key]; ok {
-			field := v.FieldByIndex(id)
+			field, err := fieldByIndex(v, id)
+			if err != nil {
+				return reflect.Value{}, fmt.Errorf("%s evaluating %s.%s", err, v.Type(), indexAsStr)
+			}
 			return indirectEface(field), nil
 		}
 
 		// Slow path: use reflect directly
 		tField, ok := typ.FieldByName(key)
 		if ok {
-			field := v.FieldByIndex(tField.Index)
 			if tField.PkgPath != "" { // field is unexported
 				return reflect.Value{}, fmt.Errorf("%s is an unexported field of struct type %s", indexAsStr, v.Type())
+			}
+			field, err := fieldByIndex(v, tField.Index)
+			if err != nil {
+				return reflect.Value{}, fmt.Errorf("%s evaluating %s.%s", err, v.Type(), indexAsStr)
 			}
 			return indirectEface(field), nil
 		}
